@@ -313,6 +313,26 @@ func init() {
 			}
 			return ex.st.Bool(xs.arr == ys.arr && xs.off == ys.off && xs.len == ys.len)
 		},
+		"vpSameLazy": func(ex *Exec, fn *ssa.Function, a []Value) Value {
+			x, ok1 := a[0].(*LazyV)
+			y, ok2 := a[1].(*LazyV)
+			return ex.st.Bool(ok1 && ok2 && x == y)
+		},
+		"vpSameRef": func(ex *Exec, fn *ssa.Function, a []Value) Value {
+			x, y := ex.ifaceOf(a[0]), ex.ifaceOf(a[1])
+			switch xv := x.v.(type) {
+			case SliceV:
+				yv, ok := y.v.(SliceV)
+				if !ok {
+					return ex.st.False
+				}
+				return ex.st.Bool(xv.len == yv.len && (xv.len == 0 || (xv.arr == yv.arr && xv.off == yv.off)))
+			case *MapObj:
+				yv, ok := y.v.(*MapObj)
+				return ex.st.Bool(ok && xv == yv)
+			}
+			return ex.st.False
+		},
 		"vpGlobalWrites": func(ex *Exec, fn *ssa.Function, a []Value) Value {
 			return ex.st.BVs(64, int64(ex.globalWrites))
 		},
@@ -567,7 +587,7 @@ func lookupIntrinsic(fn *ssa.Function) intrinsicFn {
 	name := fn.Name()
 	if strings.HasPrefix(name, "vp") && fn.Signature.Recv() == nil {
 		if h, ok := vpIntrinsics[name]; ok {
-			if name == "vpParam" || name == "vpSymbolic" {
+			if name == "vpParam" || name == "vpSymbolic" || name == "vpSameLazy" || name == "vpSameRef" {
 				return h
 			}
 			// harness primitives have engine-side effects: never inside a speculative arm
